@@ -243,8 +243,8 @@ def run(tier):
     ctx = Ctx("C20", tier, "model_checking", technique="symbolic execution of the real ecb.b09 procedures by the BASIC09 machine over z3 strings (bounded length, interpreted LEN/MID$/FIX), loops unrolled by path forking, both zero-trip FOR readings; z3 decides result = Color BASIC definition per path")
     smt.reset_stats()
     lib = tvlib.load_library()
-    K = 3 if tier == "quick" else 4
-    maxcount = 4 if tier == "quick" else 7
+    K = 3 if tier == "quick" else 6
+    maxcount = 4 if tier == "quick" else 12
     ctx.bounds.update({"string_length_max": K, "alphabet": list(ALPHA), "instr_start": f"1..{K + 1}", "string_count": f"-1..{maxcount}", "loop_unrolling": "by path forking up to the bounds; step bound per path"})
     for name in ("ecb_instr", "ecb_string", "ecb_read_filter"):
         if name not in lib:
